@@ -41,6 +41,10 @@ pub const TRACKED: &[&str] = &[
     "ProgramInstantiation",
     "UdpInstantiation",
     "CheckerInstantiation",
+    "PropertyDeclaration",
+    "SequenceDeclaration",
+    "ClockingDeclaration",
+    "ConstraintDeclaration",
     "HierarchicalInstance",
     "AnsiPortDeclaration",
     "InputDeclaration",
@@ -91,6 +95,10 @@ pub fn observe<'a, I: IntoIterator<Item = RefNode<'a>>>(it: I, text: &'a str) ->
             RefNode::InterfaceInstantiation(_) => push("InterfaceInstantiation", sub_ident(&n, text, |x| matches!(x, RefNode::InterfaceIdentifier(_)))),
             RefNode::ProgramInstantiation(_) => push("ProgramInstantiation", sub_ident(&n, text, |x| matches!(x, RefNode::ProgramIdentifier(_)))),
             RefNode::UdpInstantiation(_) => push("UdpInstantiation", sub_ident(&n, text, |x| matches!(x, RefNode::UdpIdentifier(_)))),
+            RefNode::PropertyDeclaration(_) => push("PropertyDeclaration", sub_ident(&n, text, |x| matches!(x, RefNode::PropertyIdentifier(_)))),
+            RefNode::SequenceDeclaration(_) => push("SequenceDeclaration", sub_ident(&n, text, |x| matches!(x, RefNode::SequenceIdentifier(_)))),
+            RefNode::ClockingDeclaration(_) => push("ClockingDeclaration", sub_ident(&n, text, |x| matches!(x, RefNode::ClockingIdentifier(_)))),
+            RefNode::ConstraintDeclaration(_) => push("ConstraintDeclaration", sub_ident(&n, text, |x| matches!(x, RefNode::ConstraintIdentifier(_)))),
             RefNode::CheckerInstantiation(_) => push("CheckerInstantiation", sub_ident(&n, text, |x| matches!(x, RefNode::CheckerIdentifier(_)))),
             RefNode::HierarchicalInstance(_) => push("HierarchicalInstance", sub_ident(&n, text, |x| matches!(x, RefNode::InstanceIdentifier(_)))),
             RefNode::AnsiPortDeclaration(_) => push("AnsiPortDeclaration", sub_ident(&n, text, |x| matches!(x, RefNode::PortIdentifier(_)))),
